@@ -18,6 +18,8 @@ PROPERTY_FILE = 'C01/Property.v'
 LEVEL = 'proof'
 ALLOWED_AXIOMS = ()
 TRUSTED_BASE = [
+    'shared-dongle layer: Model.rexec hand-written from _SharedRadio.run and Crazyradio.set_*/scan_*; tied on command histories '
+    'through the real RadioManager/_SharedRadio thread/_SharedRadioInstance/Crazyradio on a fake USB device with tuning state',
     'C01/Model.v host side is hand-written from cflib/crtp/radiodriver.py (_RadioDriverThread.run, '
     '_send_packet_safe, RadioDriver.send_packet/receive_packet), crtpstack.CRTPPacket.__init__ and '
     'crazyradio.Crazyradio.send_packet; tied on every run by differential evaluation against the real code '
@@ -53,7 +55,9 @@ PROVED = ('For every start-up script, every peer start state and every interleav
           'loses; the sending-thread report happens iff a put times out on a full queue and only if no transmission was '
           'acknowledged since that packet was accepted; receive_packet wait modes; close() discards out_queue; the parsing '
           'of all 256 dongle status bytes. Round 3: for a new start-up on the same driver object (restart / reconnect) from an '
-          'arbitrary earlier world, safelink mode, needs_resending and frame stamping depend on that start-up alone.')
+          'arbitrary earlier world, safelink mode, needs_resending and frame stamping depend on that start-up alone. Round 5: on a '
+          'dongle shared by several instances and scans every SEND_PACKET leaves tuned to its own instance\'s setting, for all '
+          'command histories; the cached-tuple variant is refuted.')
 NOT_PROVED = ('No guarantee when the negotiation is not confirmed but the peer enabled safelink (two generals) nor after an '
               'exception of radio.send_packet (refuted by witness). Not modelled: wall-clock time, pause()/restart(), rate '
               'limiting and relaxation sleeps, the shared-radio multiplexing thread, rate/RSSI/congestion statistics (only '
@@ -447,6 +451,122 @@ def multi_cases(ctx):
     return out
 
 
+def shared_case(rng, maxlen):
+    """link A over the REAL _SharedRadio/_SharedRadioInstance/RadioManager stack on a dongle with tuning state; between
+    A's transmissions: scans from other driver objects and traffic of a second link B on other settings.  Scans never
+    use A's own (channel, datarate, address): a foreign transmitter hitting A's Crazyflie is outside the property."""
+    evs = []
+    nb = 0
+    for i in range(rng.randrange(4, maxlen + 1)):
+        r = rng.random()
+        if r < 0.2:
+            evs.append(['S', _app_hdr(rng), [rng.randrange(256) for _ in range(rng.randrange(0, 4))]])
+        elif r < 0.3:
+            evs.append(['Q', _fw_hdr(rng), [rng.randrange(256) for _ in range(rng.randrange(0, 4))]])
+        elif r < 0.38:
+            evs.append(['R'])
+        elif r < 0.44:
+            evs.append(['SC', rng.choice([None, None, 0xE7E7E7E702, 0xE7E7E7E7E7, 0x0102030405])])
+        elif r < 0.50:
+            evs.append(['SS', rng.sample(['radio://0/33/250K', 'radio://0/80/2M', 'radio://0/125/2M', 'radio://0/7/1M',
+                                          'radio://0/80/1M', 'radio://0/125/250K', 'radio://0/2/2M'], rng.randrange(1, 5))])
+        elif r < 0.58:
+            nb += 1
+            evs.append(['BS', [_app_hdr(rng), nb & 0xff, rng.randrange(256)]])
+        else:
+            evs.append(['T', rng.choice('OOOOUA'), rng.choice([[], [1, 0x23]])])
+    evs.append(['D'])
+    c = {'shared': 1, 'N': rng.choice([3, 5, 100]), 'p0': dict(P0_STD), 'negs': rng.choice([['O'], ['U', 'A', 'O']]),
+         'evs': evs, 'family': 'shared'}
+    if rng.random() < 0.3:
+        c['close'] = 1
+    return c
+
+
+def shared_cases(ctx):
+    out = []
+    # the smallest histories: one accepted packet, one scan of each kind / one frame of link B, before and after it
+    for side in (['SC', None], ['SS', ['radio://0/33/250K', 'radio://0/125/2M']], ['BS', [0x5c, 1, 2]], ['SC', 0xE7E7E7E702]):
+        for pos in (0, 1, 2):
+            evs = [['S', 0x3c, [1]], ['T', 'O', []], ['S', 0x4d, [2]]]
+            evs.insert(pos, list(side))
+            out.append({'shared': 1, 'N': 3, 'p0': dict(P0_STD), 'negs': ['O'], 'evs': evs + [['D']], 'family': 'shared'})
+    out += [shared_case(ctx.rng, ctx.scale(30, 80)) for _ in range(ctx.scale(25, 400))]
+    return out
+
+
+def command_history(rng, n):
+    """commands at the _SharedRadioInstance API from up to 3 instances sharing the dongle"""
+    addrs = [(0xe7,) * 5, (0xe7, 0xe7, 0xe7, 0xe7, 1), (1, 2, 3, 4, 5)]
+    sets = {k: (rng.choice([2, 40, 80, 125]), rng.randrange(3), rng.choice(addrs)) for k in range(3)}
+    cmds = [['open', 0]]
+    for _ in range(n):
+        r = rng.random()
+        k = rng.randrange(3)
+        if r < 0.12:
+            cmds.append(['open', k])
+        elif r < 0.5:
+            if rng.random() < 0.2:
+                sets[k] = (rng.choice([2, 40, 80, 125]), rng.randrange(3), rng.choice(addrs))
+            cmds.append(['send', k, sets[k], [rng.randrange(256) for _ in range(rng.randrange(1, 4))]])
+        elif r < 0.65:
+            a = rng.randrange(0, 126)
+            cmds.append(['scanc', k, rng.randrange(3), rng.choice(addrs), a, min(125, a + rng.randrange(-1, 6))])
+        elif r < 0.8:
+            cmds.append(['scans', k, rng.randrange(3), rng.choice(addrs),
+                         [(rng.choice([2, 40, 80, 125, 7]), rng.randrange(3)) for _ in range(rng.randrange(0, 4))]])
+        elif r < 0.88:
+            cmds.append(['arc', k, rng.randrange(0, 16)])
+        else:
+            cmds.append(['close', k])
+    return cmds
+
+
+def _coq_setting(t):
+    return '(mkSet %d %d %s)' % (t[0], t[1], _zl(t[2]))
+
+
+def coq_commands(seen):
+    out = []
+    for c in seen:
+        if c[0] == 'reset':
+            out.append('CReset')
+        elif c[0] == 'send':
+            out.append('CSend %d %s %s' % (c[1], _coq_setting(c[2]), _zl(c[3])))
+        elif c[0] == 'scanc':
+            out.append('CScanChannels %d %d %s %d %d%%nat [255]' % (c[1], c[2], _zl(c[3]), c[4], max(0, c[5] - c[4] + 1)))
+        elif c[0] == 'scans':
+            out.append('CScanSelected %d %d %s [%s] [255; 255; 255]' % (c[1], c[2], _zl(c[3]),
+                                                                      '; '.join('(%d, %d)' % t for t in c[4])))
+        elif c[0] == 'arc':
+            out.append('CSetArc %d %d' % (c[1], c[2]))
+        elif c[0] == 'close':
+            out.append('CStop %d' % c[1])
+    return 'air_obs (fst (rexec [%s] dongle0))' % '; '.join(out)
+
+
+_cmd_runs = {}
+
+
+def command_results(ctx):
+    key = (ctx.tier, ctx.seed, ctx.repo)
+    if key not in _cmd_runs:
+        from fakes import c01_shared
+        rng = __import__('random').Random(ctx.seed * 31 + 5)
+        out = []
+        fixed = [[['open', 0], ['open', 1], ['send', 0, (80, 2, (0xe7, 0xe7, 0xe7, 0xe7, 1)), [255]],
+                  ['scanc', 1, 0, (0xe7,) * 5, 0, 3], ['send', 0, (80, 2, (0xe7, 0xe7, 0xe7, 0xe7, 1)), [60, 1]]]]
+        for cmds in fixed + [command_history(rng, rng.randrange(3, 40)) for _ in range(ctx.scale(40, 600))]:
+            try:
+                out.append((cmds,) + tuple(c01_shared.run_commands(cmds, air=[(125, 2, (0xe7,) * 5), (40, 1, (1, 2, 3, 4, 5))])))
+            except Exception:
+                import traceback
+                out.append((cmds, None, None, None, traceback.format_exc()[-800:]))
+        _cmd_runs.clear()
+        _cmd_runs[key] = out
+    return _cmd_runs[key]
+
+
 def corpus_cases():
     import glob
     import json
@@ -466,6 +586,7 @@ def all_cases(ctx):
     cs += [random_case(ctx.rng, ctx.scale(100, 400)) for _ in range(ctx.scale(110, 2500))]
     cs += [host_case(ctx.rng, ctx.scale(40, 120)) for _ in range(ctx.scale(110, 3000))]
     cs += multi_cases(ctx)
+    cs += shared_cases(ctx)
     return cs
 
 
@@ -511,7 +632,7 @@ def tie(ctx):
     res = results(ctx)
     dis = []
     terms, exp, idx = [], [], []
-    dist = {'enum': 0, 'random': 0, 'host': 0, 'corpus': 0, 'multi': 0, 'threaded': 0, 'transmissions': 0, 'lost': 0, 'not_confirmed': 0,
+    dist = {'enum': 0, 'random': 0, 'host': 0, 'corpus': 0, 'multi': 0, 'threaded': 0, 'shared': 0, 'transmissions': 0, 'lost': 0, 'not_confirmed': 0,
             'link_errors': 0, 'max_events': 0}
     seen = set()
     nontriv = 0
@@ -549,6 +670,26 @@ def tie(ctx):
                         'case': c, 'first_difference_at': first,
                         'model': None if mv is None else mv[max(0, (first or 0) - 12):(first or 0) + 12],
                         'impl': exp[bi][max(0, (first or 0) - 12):(first or 0) + 12]})
+    # ---- the shared dongle: command histories through the real RadioManager / _SharedRadio thread / _SharedRadioInstance /
+    #      Crazyradio on a dongle with tuning state; per packet on the air (channel, datarate, address, bytes) == Model.rexec
+    cterms, cexp, cidx = [], [], []
+    cres = command_results(ctx)
+    for k, r in enumerate(cres):
+        if r[1] is None:
+            dis.append({'what': 'shared dongle: the real stack raised on a command history', 'case': {'cmds': r[0]}, 'impl': r[4], 'model': None})
+            continue
+        flat = []
+        for (ch, dr, addr), data in r[1]:
+            flat += [ch, dr, len(addr)] + list(addr) + [len(data)] + data
+        cterms.append(coq_commands(r[2]))
+        cexp.append(flat)
+        cidx.append(k)
+    for bi, mv in compare_cases(cterms, cexp):
+        if len(dis) < 8:
+            dis.append({'what': 'shared dongle: tuning/packets on the air differ between model and implementation',
+                        'case': {'cmds': cres[cidx[bi]][0]}, 'model': None if mv is None else mv[:60], 'impl': cexp[bi][:60]})
+    dist['command_histories'] = len(cterms)
+    dist['packets_on_air_in_command_histories'] = sum(len(r[1]) for r in cres if r[1] is not None)
     # ---- dongle answer parsing: every status byte through the real Crazyradio.send_packet (two ARC settings)
     from fakes import c01_radio
     pterms, pexp = [], []
@@ -583,7 +724,7 @@ def tie(ctx):
             if len(samples) >= 3:
                 break
     return {
-        'evaluations': len(terms) + len(pterms),
+        'evaluations': len(terms) + len(pterms) + len(cterms),
         'distinct_nontrivial': nontriv,
         'rule': 'distinct explicit scripts with >= 1 unacknowledged transmission and >= 2 non-null packets delivered in '
                 'each direction (host-only family: >= 1 unacknowledged/USB-error answer and >= 2 packets received); '
@@ -669,9 +810,11 @@ def judge(case, sim):
         for i, t in enumerate(sim.tx, 1):
             if i in starts:
                 run = 0                      # a new thread starts with a full retry budget
-            if t.get('ack') is None:
+            if t.get('ack') is None and t['o'] not in ('O', 'U', 'A'):
                 continue
-            if t['ack']:
+            # "its peer acknowledges": the scripted outcome of the transmission (raw-answer cases: what the dongle said)
+            acked = (t['o'] == 'O') if t['o'] in ('O', 'U', 'A') else bool(t['ack'])
+            if acked:
                 run = 0
             else:
                 run += 1
@@ -695,6 +838,24 @@ def judge(case, sim):
         cl = fin['closed']
         if not (cl['radio_closed'] == 1 and cl['radio_ref'] and cl['callbacks_cleared'] and cl['out_queue_empty']):
             fail('close_incomplete', 'dongle closed once, callbacks cleared, out_queue emptied', cl, 'RadioDriver.close()')
+    # ---- a dongle shared with scans and a second link: nothing of link A goes to another Crazyflie, link B's frames
+    #      reach B's Crazyflie (once, in order), scans find exactly who is listening
+    if case.get('shared'):
+        from fakes import c01_shared
+        scan_pk = ([0xff], [0xff, 0xff, 0xff])
+        for setting, pr in sim.air.items():
+            if pr is sim.peer:
+                continue
+            stray = [f for f in pr.rx if f not in scan_pk and not (setting == c01_shared.SET_B and f in [b for b, _ in sim.b_sent])]
+            if stray:
+                fail('delivered_to_foreign_crazyflie', [], {'listening_on': list(setting), 'received': stray[:3]},
+                     'packets of the link must reach ITS Crazyflie only')
+        b_rx = [f for f in sim.air[c01_shared.SET_B].rx if f not in scan_pk]
+        if b_rx != [b for b, _ in sim.b_sent] or not all(a for _, a in sim.b_sent):
+            fail('second_link_not_delivered', [b for b, _ in sim.b_sent], b_rx, "link B's frames must reach B's Crazyflie, acknowledged")
+        for e, found in sim.scans:
+            if found != sim.expected_scan(e):
+                fail('scan_result_wrong', sim.expected_scan(e), found, 'a scan finds exactly the Crazyflies listening on the scanned settings')
     # ---- exactly once, in order, both directions
     if confirmed and _preconditions(case) and not case.get('more'):
         drained = bool(case['evs']) and case['evs'][-1][0] == 'D'
@@ -760,6 +921,28 @@ def _shrink(case, cls, budget=250):
     return best
 
 
+def _cmds_fail(cmds):
+    from fakes import c01_shared
+    try:
+        _, _, _, sends = c01_shared.run_commands(cmds, air=[(125, 2, (0xe7,) * 5), (40, 1, (1, 2, 3, 4, 5))])
+    except Exception:
+        return True
+    return any(act is None or tuple(act) != tuple(req) for req, act, _ in sends)
+
+
+def _shrink_cmds(cmds, budget=150):
+    best = list(cmds)
+    i, runs = 1, 0
+    while i < len(best) and runs < budget:
+        c = best[:i] + best[i + 1:]
+        runs += 1
+        if _cmds_fail(c):
+            best = c
+        else:
+            i += 1
+    return best
+
+
 def oracle(ctx, deep=False):
     res = list(results(ctx))
     if deep:
@@ -799,9 +982,25 @@ def oracle(ctx, deep=False):
         except Exception:
             import traceback
             res.append((c, None, traceback.format_exc()[-1200:]))
+    cmd_fail = None
+    n_cmd = 0
+    for r in command_results(ctx):
+        n_cmd += 1
+        if r[1] is None:
+            continue
+        bad = [(req, act) for req, act, _ in r[4] if act is None or tuple(act) != tuple(req)]
+        if bad and cmd_fail is None:
+            cmd_fail = (r[0], bad[0])
     fails = []
     seen = set()
-    n = n_stat
+    n = n_stat + n_cmd
+    if cmd_fail:
+        small = _shrink_cmds(cmd_fail[0])
+        seen.add('send_on_wrong_tuning')
+        fails.append({'class': 'send_on_wrong_tuning', 'case': {'cmds': small},
+                      'expected': 'every SEND_PACKET leaves with the dongle tuned to the sending instance\'s channel/datarate/address',
+                      'observed': {'requested': list(cmd_fail[1][0]), 'tuned_to': None if cmd_fail[1][1] is None else list(cmd_fail[1][1])},
+                      'detail': '_SharedRadio serves several instances and scans on one dongle'})
     if stat_fail:
         seen.add('statistics_affect_the_link')
         fails.append({'class': 'statistics_affect_the_link', 'case': {k: v for k, v in stat_fail[0].items() if k != 'family'},
@@ -836,6 +1035,8 @@ def oracle(ctx, deep=False):
 
 def replay(payload, ctx):
     c = payload['case']
+    if 'cmds' in c:
+        return {'class': 'send_on_wrong_tuning', 'observed': 'still mis-tuned'} if _cmds_fail(c['cmds']) else None
     if payload.get('class') == 'statistics_affect_the_link':
         try:
             a, b = run_impl(c), run_impl(dict(c, stats=1))
